@@ -1277,3 +1277,11 @@ def pre_checks(ctx):
             except Exception as e:
                 bad.append(("table:arg-kinds", "%s.%s rejects a dict (%s) but the model's kind is %s" % (cname, fname, type(e).__name__, k)))
     return bad
+
+
+# functions of /repo whose executed-line coverage by this run is reported in the evidence
+ANCHORS = [('swh/model/collections.py', 'ImmutableDict.*'),
+           ('swh/model/model.py', 'freeze_optional_dict'),
+           ('swh/model/model.py', 'tuplify_extra_headers'),
+           ('swh/model/model.py', 'Revision.__attrs_post_init__'),
+           ('swh/model/model.py', 'Snapshot.from_dict')]
